@@ -47,8 +47,23 @@ pub (super) struct JobQueueCore {
     /// The current state of this queue
     pub (super) state: QueueState,
 
-    /// If something is blocked on this queue, a condition variable to wake it up
-    pub (super) wake_blocked: Vec<Weak<Condvar>>,
+    /// The threads that are blocked in `sync()` waiting for this queue to be run elsewhere
+    pub (super) wake_blocked: Vec<Weak<BlockedSync>>,
+}
+
+///
+/// A thread that is blocked in a `sync()` call, waiting for a queue that is running elsewhere
+///
+pub (super) struct BlockedSync {
+    /// The condition variable the thread waits on
+    pub (super) wakeup: Arc<Condvar>,
+
+    /// The mutex used with the condition variable (set to true once the thread's job has finished)
+    pub (super) ready: Arc<Mutex<bool>>,
+
+    /// Set to true (with the `ready` mutex held) when the queue has been rescheduled since the thread last tried to claim it.
+    /// This makes the notification 'sticky', so it is not lost if the thread is not waiting on the condition variable yet.
+    pub (super) rescheduled: atomic::AtomicBool,
 }
 
 impl fmt::Debug for JobQueue {
